@@ -27,7 +27,14 @@ fn group(g: u32, c: &mut dyn Chooser, final_pos: bool) -> Vec<String> {
 /// join hundred+rest: attached (with optional elision cento+ottanta/otto -> centottanta) or apart
 /// "novanta cinque": tens and units apart (never with the elided uno/otto forms)
 pub fn below100_split(n: u32, c: &mut dyn Chooser) -> Vec<String> {
-    if n > 20 && n % 10 != 0 && n % 10 != 1 && n % 10 != 8 && c.pick(4) == 3 { vec![s(T[(n / 10) as usize]), s(U[(n % 10) as usize])] } else { vec![below100(n, c, true)] }
+    if n > 20 && n % 10 != 0 && n % 10 != 1 && n % 10 != 8 && c.pick(4) == 3 {
+        // "venti tré": the accent of the compound is kept when speech-to-text splits it
+        let u = if n % 10 == 3 && c.pick(2) == 1 { "tré" } else { U[(n % 10) as usize] };
+        vec![s(T[(n / 10) as usize]), s(u)]
+    } else if n == 3 && c.pick(8) == 7 {
+        // the library publishes the accented form as a spelling of three on its own (split compounds)
+        vec![s("tré")]
+    } else { vec![below100(n, c, true)] }
 }
 fn join_group(p: Vec<String>, c: &mut dyn Chooser, split: bool) -> Vec<String> {
     if p.len() == 2 && !split {
